@@ -1,1 +1,79 @@
-import SigModel.Spec.Hub
+/-
+C04 — Room membership is consistent for the server and for every observer.
+
+Theorems over the hub model (`Model/Hub.lean`), for **every** finite sequence of
+operations (`run {} ops`): connect, hello, join / re-join / switch room / leave,
+disconnect, resume, bye, housekeeping (expiry), room deletion, disinvite,
+same-room-session reconnect, virtual sessions, room API calls.
+They are corollaries of `reachable_inv` (Lemmas/HubOps.lean): the structural
+invariant holds in every reachable state.
+-/
+import SigModel.Lemmas.HubOps
+
+namespace SigModel.Hub
+
+/-- The set of members the server holds for room `(b, r)` ( `[]` if there is no such room). -/
+def membersOf (h : Hub) (b : Nat) (r : String) : List Nat :=
+  match h.rooms b r with
+  | some rm => rm.members
+  | none => []
+
+/-- **Server side, part 1.** In every reachable state a session is a member of room `(b, r)`
+exactly if its own record says so — hence it is in at most one room. -/
+theorem C04_membership_agrees (ops : List Op) (b : Nat) (r : String) (s : Nat) :
+    s ∈ membersOf (run {} ops).1 b r ↔
+      ∃ x, (run {} ops).1.sess s = some x ∧ x.backend = b ∧ x.room = some r := by
+  have hi := reachable_inv ops
+  generalize (run {} ops).1 = h at hi
+  unfold membersOf
+  constructor
+  · intro hm
+    cases hrm : h.rooms b r with
+    | none => simp [hrm] at hm
+    | some rm => simp only [hrm] at hm; exact hi.mem_room b r rm s hrm hm
+  · rintro ⟨x, hx, hb, hr⟩
+    obtain ⟨rm, hrm, hm⟩ := hi.room_mem' s x r hx hr
+    rw [hb] at hrm; simp only [hrm]; exact hm
+
+theorem C04_at_most_one_room (ops : List Op) (s : Nat) (b₁ b₂ : Nat) (r₁ r₂ : String)
+    (h₁ : s ∈ membersOf (run {} ops).1 b₁ r₁) (h₂ : s ∈ membersOf (run {} ops).1 b₂ r₂) :
+    b₁ = b₂ ∧ r₁ = r₂ := by
+  obtain ⟨x, hx, hb, hr⟩ := (C04_membership_agrees ops b₁ r₁ s).mp h₁
+  obtain ⟨y, hy, hb', hr'⟩ := (C04_membership_agrees ops b₂ r₂ s).mp h₂
+  rw [hx] at hy; cases hy
+  rw [hr] at hr'; cases hr'
+  exact ⟨hb.symm.trans hb', rfl⟩
+
+/-- **Server side, part 2.** A room with no members no longer exists, members are listed once. -/
+theorem C04_no_empty_rooms (ops : List Op) (b : Nat) (r : String) (rm : Room)
+    (h : (run {} ops).1.rooms b r = some rm) : rm.members ≠ [] ∧ rm.members.Nodup :=
+  ⟨(reachable_inv ops).nonempty b r rm h, (reachable_inv ops).nodup b r rm h⟩
+
+/-- **Server side, part 3.** The bus listeners of a room are exactly its non-virtual members
+(so room events reach the members and nobody else). -/
+theorem C04_room_listeners (ops : List Op) (b : Nat) (r : String) (s : Nat) :
+    s ∈ (run {} ops).1.roomL b r ↔
+      s ∈ membersOf (run {} ops).1 b r ∧ ∃ x, (run {} ops).1.sess s = some x ∧ x.kind ≠ .virtual := by
+  have hi := reachable_inv ops
+  rw [C04_membership_agrees]
+  generalize (run {} ops).1 = h at hi
+  rw [hi.roomL_iff]
+  constructor
+  · rintro ⟨x, hx, hb, hr, hk⟩; exact ⟨⟨x, hx, hb, hr⟩, x, hx, hk⟩
+  · rintro ⟨⟨x, hx, hb, hr⟩, y, hy, hk⟩; rw [hx] at hy; cases hy; exact ⟨x, hx, hb, hr, hk⟩
+
+/-- Rooms with the same id on different backends are different table entries with disjoint members. -/
+theorem C04_rooms_per_backend (ops : List Op) (b₁ b₂ : Nat) (r : String) (s : Nat) (hne : b₁ ≠ b₂)
+    (h₁ : s ∈ membersOf (run {} ops).1 b₁ r) : s ∉ membersOf (run {} ops).1 b₂ r :=
+  fun h₂ => hne (C04_at_most_one_room ops s b₁ b₂ r r h₁ h₂).1
+
+/-! Non-vacuity: a concrete history in which the statements are about something. -/
+
+private def demo : List Op :=
+  [.connect 1, .connect 2, .hello 1 0 .client "alice" false false, .hello 2 0 .client "bob" false false,
+   .join 1 "roomA" "nc1" (.ok none ""), .join 2 "roomA" "nc2" (.ok none ""), .join 1 "roomB" "nc3" (.ok none "")]
+
+example : membersOf (run {} demo).1 0 "roomA" = [2] ∧ membersOf (run {} demo).1 0 "roomB" = [1] := by
+  decide +kernel
+
+end SigModel.Hub
